@@ -145,6 +145,26 @@ pub fn drive(d: &mut Driver)
 	d.bound("nesting pumps", json!(NEST.iter().map(|n| n.0).collect::<Vec<_>>()));
 	d.bound("nesting depths (release-profile worker)", json!(depths));
 	d.phase_profile("nesting pumps", jobs, true);
+	// (f) declaration dependency graphs (the space of C11) under every declaration order
+	let mut jobs = Vec::new();
+	let graph_sizes: Vec<(usize, Vec<usize>)> = if quick { vec![(2, vec![0, 1, 2, 3]), (3, (0..8).collect()), (4, vec![0, 15])] } else { vec![(2, vec![0, 1, 2, 3]), (3, (0..8).collect()), (4, (0..16).collect())] };
+	for (n, masks) in &graph_sizes
+	{
+		for mask in masks
+		{
+			let kinds = crate::checks::c11::kinds_of(*n, *mask);
+			// four containers: without self-loops (12 possible edges)
+			let count = if *n == 4 { 1u64 << 12 } else { crate::checks::c11::graph_count(*n, false, &kinds) };
+			let mut lo = 0;
+			while lo < count
+			{
+				jobs.push(json!({"space": "graphs", "n": n, "mask": mask, "lo": lo, "hi": (lo + 512).min(count)}));
+				lo += 512;
+			}
+		}
+	}
+	d.bound("dependency graphs (containers: kind assignments)", json!(graph_sizes));
+	d.phase("declaration dependency graphs x all declaration orders", jobs);
 	// (e) module histories
 	let mut jobs = Vec::new();
 	let n = MODULE_KINDS.len();
@@ -380,6 +400,44 @@ pub fn work(spec: &Value, w: &mut WorkerCtx)
 			let name = NEST[k].0;
 			judge(&[("m.pn".to_string(), text)], || json!({"nest": name, "k": k, "r": r, "size": r, "sig_hint": format!("nesting={name}")}), w);
 		}
+		"graphs" =>
+		{
+			let n = spec["n"].as_u64().unwrap() as usize;
+			let mask = spec["mask"].as_u64().unwrap() as usize;
+			let kinds = crate::checks::c11::kinds_of(n, mask);
+			// every order of the containers; `main` stays last
+			let perms: Vec<Vec<usize>> = crate::util::permutations(n).into_iter().map(|mut p| { p.push(n); p }).collect();
+			for code in spec["lo"].as_u64().unwrap()..spec["hi"].as_u64().unwrap()
+			{
+				let edges = if n == 4
+				{
+					let mut e = vec![vec![0u8; 4]; 4];
+					let mut c = code;
+					for u in 0..4
+					{
+						for v in 0..4
+						{
+							if u != v
+							{
+								e[u][v] = (c & 1) as u8;
+								c >>= 1;
+							}
+						}
+					}
+					e
+				}
+				else
+				{
+					crate::checks::c11::decode_graph(n, code, false, &kinds)
+				};
+				for p in &perms
+				{
+					let text = crate::checks::c11::graph_program(&kinds, &edges, p);
+					w.result.transitions += 1;
+					judge(&[("m.pn".to_string(), text.clone())], || json!({"text": text, "sig_hint": "dependency graph"}), w);
+				}
+			}
+		}
 		"modules" =>
 		{
 			let first = spec["first"].as_u64().unwrap() as usize;
@@ -514,7 +572,21 @@ pub fn judge(files: &[(String, String)], desc: impl Fn() -> Value, w: &mut Worke
 					if diags.is_empty()
 					{
 						w.result.outcome("rejected-without-diagnostics:VIOLATION");
-						w.result.violation(&format!("failure-without-diagnostics:{stage}"), size, &desc, || format!("compilation failed at stage '{stage}' with an empty list of errors"));
+						// witness class: the space the input comes from and the kinds of declarations in it
+						let hint = desc().get("sig_hint").and_then(|h| h.as_str()).map(|h| h.to_string()).unwrap_or_else(|| "other".to_string());
+						let mut kinds: Vec<&str> = Vec::new();
+						for f in files
+						{
+							for (kw, name) in [("fn ", "fn"), ("const ", "const"), ("struct ", "struct"), ("word", "word"), ("import ", "import")]
+							{
+								if f.1.contains(kw) && !kinds.contains(&name)
+								{
+									kinds.push(name);
+								}
+							}
+						}
+						kinds.sort();
+						w.result.violation(&format!("failure-without-diagnostics:{stage}:{hint}:{}", kinds.join("+")), size, &desc, || format!("compilation failed at stage '{stage}' with an empty list of errors"));
 					}
 					else
 					{
